@@ -576,6 +576,14 @@ def run_contract(contract, xcheck=True, goal_timeout_ms=8000):
       traceback.print_exc()
   for rec in ex.results:
     rep.add(rec)
+  if hasattr(contract, 'static_obligations') and rep.error is None:
+    try:
+      for cname, ok, info in contract.static_obligations():
+        rep.add(dict(name=contract.oblig('SURFACE', cname),
+                     status='proved' if ok else 'failed', backend='static',
+                     time=0.0, info=info, pymodel=Model({'static': info}, {})))
+    except Exception as e:  # pylint: disable=broad-except
+      rep.error = f'static obligations: {e!r}'
   rep.paths = ex.paths
   rep.completed = ex.completed
   rep.unsupported = sorted(set(ex.unsupported))
